@@ -342,11 +342,11 @@ def rule_adv(chk, rid, runs, names=("n_advance", "mixed_step_memoization")):
         crecs = [(c.node, c.name, c.ordinal, c.args, c.state, False) for c in it.calls if c.name in names]
         crecs += [(c.node, c.name, c.ordinal, c.args, c.state, True) for c in getattr(it, "early_calls", []) if c.name in names]
         # tabulated arm: schedule[steps, units]
-        k = 0
+        sites = sorted({(node.lineno, node.col_offset) for node, base, idx, st in it.subs
+                        if base == "schedule" and isinstance(idx, tuple) and len(idx) == 2})
         for node, base, idx, st in it.subs:
             if base == "schedule" and isinstance(idx, tuple) and len(idx) == 2:
-                crecs.append((node, "schedule[]", k, list(idx), st, False))
-                k += 1
+                crecs.append((node, "schedule[]", sites.index((node.lineno, node.col_offset)), list(idx), st, False))
         for node, name, ordinal, args, st, early in crecs:
             cons = f"{run_.construct}#call-{name}[{ordinal}]"
             steps = args[0] if args else None
@@ -376,32 +376,156 @@ def rule_adv(chk, rid, runs, names=("n_advance", "mixed_step_memoization")):
 
 
 # ------------------------------------------------------------------ configuration attributes
-def rule_config(chk, rid, repo, classes=None):
-    """attributes that hold constructor parameters (the declared units, period, storage, trajectory ...) are
-    written by the constructor only: every analysis starts from the constructor's facts about them, and a
-    schedule that changes its own parameters while iterating no longer follows them"""
-    chk.describe(rid, "constructor-parameter attributes (units, period, storages) are not re-assigned outside __init__")
-    state = {"_n", "_r", "_max_n", "_exhausted", "iter"}
+def _cases(it, st, e, prover):
+    """prover(st, e) with case analysis on the min/max atoms in the residual"""
+    r = prover(st, e)
+    if r[0] is not None or it is None:
+        return r
+    res = st.reduce(e)
+    atoms = [k for k in it.minmax if k in res.t]
+    if not atoms:
+        return r
+    k = atoms[0]
+    kind, a, b = it.minmax[k]
+    A, B, K = Lin.sym(a), Lin.sym(b), Lin.sym(k)
+    verdicts = []
+    for pick, other in ((A, B), (B, A)):
+        s2 = st.copy()
+        s2.add_eq(K - pick)
+        s2.add_ineq((other - pick) if kind == "min" else (pick - other))
+        if s2.bottom or s2.infeasible():
+            continue
+        verdicts.append(_cases(it, s2, e, prover))
+    if verdicts and all(v[0] is True for v in verdicts):
+        return True, "entailed in every case of " + kind
+    return None, r[1]
+
+
+def _config_attrs(repo, cname):
+    """attributes whose constructor value derives from a constructor parameter (the declared units, period,
+    storages, trajectory ...), as opposed to run-time state initialised with a literal"""
+    cfg = set()
+    for _, cc in repo.mro(cname):
+        for f in cc.body:
+            if not (isinstance(f, ast.FunctionDef) and f.name == "__init__"):
+                continue
+            params = {a.arg for a in f.args.args + f.args.kwonlyargs} - {"self"}
+            changed = True
+            while changed:
+                changed = False
+                for n in ast.walk(f):
+                    if not isinstance(n, ast.Assign):
+                        continue
+                    dep = any((isinstance(x, ast.Name) and x.id in params) or
+                              (isinstance(x, ast.Attribute) and isinstance(x.value, ast.Name) and x.value.id == "self"
+                               and x.attr in cfg) for x in ast.walk(n.value))
+                    if not dep:
+                        continue
+                    for t in n.targets:
+                        for x in ast.walk(t):
+                            if isinstance(x, ast.Attribute) and isinstance(x.value, ast.Name) and x.value.id == "self" \
+                                    and isinstance(x.ctx, ast.Store) and x.attr not in cfg:
+                                cfg.add(x.attr)
+                                changed = True
+                            elif isinstance(x, ast.Name) and isinstance(x.ctx, ast.Store) and x.id not in params:
+                                params.add(x.id)
+                                changed = True
+    return cfg - {"_n", "_r", "_max_n", "_exhausted", "iter", "_iter"}
+
+
+def _loop_varying(fn):
+    """names assigned inside a loop of fn, plus loop targets"""
+    out = set()
+    for l in ast.walk(fn):
+        if isinstance(l, (ast.For, ast.While)):
+            for n in ast.walk(l):
+                if isinstance(n, ast.Name) and isinstance(n.ctx, ast.Store):
+                    out.add(n.id)
+    return out
+
+
+def rule_config(chk, rid, ctx, classes=None, mode="eq"):
+    """attributes that hold constructor parameters (the declared units, period, storage, trajectory ...) keep the
+    constructor's value: every analysis starts from the constructor's facts about them, and a schedule that
+    changes its own parameters while iterating no longer follows them.  mode "eq": a store outside __init__ must
+    re-store the same value; mode "le" (budgets): it may only lower it.  A store whose value depends on a
+    loop-varying local / the counters makes the configuration depend on the history: REFUTED (mode eq)."""
+    repo = ctx.repo
+    chk.describe(rid, "constructor-parameter attributes (units, period, storages) keep their constructor value"
+                 + (" or only decrease" if mode == "le" else "") + " outside __init__")
+    prover = prove_eq if mode == "eq" else (lambda st, e: prove_ge(st, -e))
     for cname in (classes or repo.schedule_classes()):
         rel, c = repo.find_class(cname)
-        inits = set()
-        for _, cc in repo.mro(cname):
-            for f in cc.body:
-                if isinstance(f, ast.FunctionDef) and f.name == "__init__":
-                    inits |= attr_stores(f)
-        cfg = inits - state
+        cfg = _config_attrs(repo, cname)
+        recs_by_pos = {}
+        try:
+            runs = ctx.model.runs(cname) if cname in ctx.model.concrete_classes() else []
+        except Exception:
+            runs = []
+        for run in runs:
+            for node, sym, st, val in run.interp.astores:
+                recs_by_pos.setdefault((node.lineno, node.col_offset), []).append((run, sym, st, val))
+        bad = False
         for f in c.body:
             if not isinstance(f, ast.FunctionDef) or f.name == "__init__":
                 continue
-            for n in ast.walk(f):
-                if isinstance(n, ast.Attribute) and isinstance(n.ctx, (ast.Store, ast.Del)) and isinstance(n.value, ast.Name) \
-                        and n.value.id == "self" and n.attr in cfg:
-                    chk.decide(rid, f"{rel[:-3]}.{cname}.{f.name}#store-{n.attr}", False,
-                               f"{cname}.{f.name} re-assigns self.{n.attr}, which holds a constructor parameter: later blocks / "
-                               "passes run with other parameters than the schedule was built with", rel=rel, node=n)
-        chk.decide(rid, f"{rel[:-3]}.{cname}#config-attributes", True,
-                   f"constructor-parameter attributes {sorted(cfg)} have no writer outside __init__" , rel=rel, node=c, nontrivial=False) \
-            if not any(o.rule == rid and o.construct.startswith(f"{rel[:-3]}.{cname}.") and o.verdict == REFUTED_ for o in chk.obs) else None
+            vary = _loop_varying(f)
+            for stmt in ast.walk(f):
+                if isinstance(stmt, (ast.Assign, ast.AugAssign, ast.AnnAssign)):
+                    tgts = stmt.targets if isinstance(stmt, ast.Assign) else [stmt.target]
+                elif isinstance(stmt, ast.Delete):
+                    tgts = stmt.targets
+                else:
+                    continue
+                for t in tgts:
+                    for n in ast.walk(t):
+                        if not (isinstance(n, ast.Attribute) and isinstance(n.ctx, (ast.Store, ast.Del))
+                                and isinstance(n.value, ast.Name) and n.value.id == "self" and n.attr in cfg):
+                            continue
+                        cons = f"{rel[:-3]}.{cname}.{f.name}#store-{n.attr}"
+                        value = getattr(stmt, "value", None)
+                        if isinstance(stmt, ast.Assign) and isinstance(value, ast.Attribute) and isinstance(value.value, ast.Name) \
+                                and value.value.id == "self" and value.attr == n.attr:
+                            continue      # self.x = self.x
+                        rs = recs_by_pos.get((n.lineno, n.col_offset), [])
+                        verdicts = []
+                        for run, sym, st, val in rs:
+                            if isinstance(val, Lin):
+                                verdicts.append(_cases(run.interp, st, val - Lin.sym(sym), prover))
+                            elif isinstance(val, Tok):
+                                e = st.enum_single(sym) if hasattr(st, "enum_single") else None
+                                verdicts.append((True, "same token") if e == val.v else (None, "token not known equal"))
+                            else:
+                                verdicts.append((None, "value not tracked"))
+                        names = set()
+                        if value is not None:
+                            for x in ast.walk(value):
+                                if isinstance(x, ast.Name):
+                                    names.add(x.id)
+                                elif isinstance(x, ast.Attribute) and isinstance(x.value, ast.Name) and x.value.id == "self":
+                                    names.add("self." + x.attr)
+                        hist = sorted((names & vary) | (names & {"self._n", "self._r"}))
+                        if rs and all(v[0] is True for v in verdicts):
+                            chk.decide(rid, cons, True, f"{cname}.{f.name} re-stores self.{n.attr} with a value that is "
+                                       + ("equal to" if mode == "eq" else "not above") + " the constructor's in every reachable state",
+                                       rel=rel, node=n)
+                        elif mode == "eq" and hist:
+                            bad = True
+                            chk.decide(rid, cons, False,
+                                       f"{cname}.{f.name} re-assigns self.{n.attr}, which holds a constructor parameter, with a value "
+                                       f"depending on {hist} (loop-varying / position): later blocks and passes run with parameters that "
+                                       "depend on the history instead of the ones the schedule was built with", rel=rel, node=n)
+                        else:
+                            bad = True
+                            chk.decide(rid, cons, None,
+                                       f"{cname}.{f.name} re-assigns self.{n.attr}, which holds a constructor parameter; the value is not "
+                                       "provably " + ("the same" if mode == "eq" else "at most the declared one")
+                                       + (": " + verdicts[0][1] if verdicts else " (store not reached by the generator analysis)"),
+                                       rel=rel, node=n)
+        if not bad:
+            chk.decide(rid, f"{rel[:-3]}.{cname}#config-attributes", True,
+                       f"constructor-parameter attributes {sorted(cfg)} keep their constructor value outside __init__",
+                       rel=rel, node=c, nontrivial=False)
 
 
 REFUTED_ = "REFUTED"
